@@ -4,6 +4,8 @@ import (
 	"context"
 	"errors"
 	"fmt"
+
+	"github.com/buildbuildio/pebbles/gqlerrors"
 )
 
 // C20 harness: AsyncMapReduce[int,int,[]int] under every interleaving and every failure pattern.
@@ -41,8 +43,18 @@ func VerifAMR() {
 		}
 	}
 	errsOf := verifErrs
+	// errors that are lists already, each a window of one shared array (len 1, spare capacity behind it)
+	shared := gqlerrors.ErrorList{gqlerrors.NewError("", errors.New("w0")), gqlerrors.NewError("", errors.New("w1")), gqlerrors.NewError("", errors.New("w2")), gqlerrors.NewError("", errors.New("w3")), gqlerrors.NewError("", errors.New("w4")), gqlerrors.NewError("", errors.New("w5")),
+		gqlerrors.NewError("", errors.New("w6")), gqlerrors.NewError("", errors.New("w7")), gqlerrors.NewError("", errors.New("w8")), gqlerrors.NewError("", errors.New("w9")), gqlerrors.NewError("", errors.New("w10")), gqlerrors.NewError("", errors.New("w11")), gqlerrors.NewError("", errors.New("w12"))}
+	windows := false
 	if n >= 1 {
-		switch verifChoice("errkind", 3) {
+		switch verifChoice("errkind", 4) {
+		case 3:
+			windows = true
+			errsOf = make([]error, len(shared))
+			for i := range shared {
+				errsOf[i] = shared[i : i+1]
+			}
 		case 1:
 			if n < 2 {
 				verifAssume(false)
@@ -108,6 +120,12 @@ func VerifAMR() {
 			verifAssert(found == 1, "the accumulator holds every success once")
 		}
 	}
+	if windows {
+		// what the map functions handed in is still what it was
+		for i := range shared {
+			verifAssert(shared[i] != nil && shared[i].Message == "w"+verifItoa(i), "the error lists of the callers are not written to")
+		}
+	}
 	verifAssert(len(acc) == n-nfail, "the accumulator holds nothing but the successes")
 	verifAssert(len(errs) == nfail, "exactly the errors that occurred are returned")
 	verifAssert((errs == nil) == (nfail == 0), "error list is nil iff nothing failed")
@@ -117,4 +135,43 @@ func VerifAMR() {
 	if n == 0 {
 		verifReach("empty input")
 	}
+}
+
+
+// VerifAMRInterface: the helper instantiated with an interface result type: a map function may hand back
+// nil as its (successful) result, which is reduced like any other
+func VerifAMRInterface() {
+	n := 1 + verifChoice("n", verifParam("nmax", 3))
+	payload := make([]int, n)
+	isNil := make([]bool, n)
+	for i := range payload {
+		payload[i] = i
+		isNil[i] = verifBool("nil" + verifItoa(i))
+	}
+	reduced := 0
+	nils := 0
+	acc, errs := AsyncMapReduce(payload, []interface{}(nil),
+		func(i int) (interface{}, error) {
+			if isNil[i] {
+				return nil, nil
+			}
+			return "v" + verifItoa(i), nil
+		},
+		func(acc []interface{}, v interface{}) []interface{} {
+			reduced++
+			if v == nil {
+				nils++
+			}
+			return append(acc, v)
+		})
+	want := 0
+	for _, b := range isNil {
+		if b {
+			want++
+		}
+	}
+	verifAssert(errs == nil, "no error when nothing failed")
+	verifAssert(reduced == n && len(acc) == n, "every successful result is reduced exactly once, nil results included")
+	verifAssert(nils == want, "nil results reach the reduce function")
+	verifReach("interface results reduced")
 }
